@@ -14,10 +14,8 @@ def methodEquivC06 : List (String × String) := [
   ("ndarray.take", "calls:numpy.take")
 ]
 
-def exclC06Methods : List (String × String) := [
-  -- unyt_array.copy(order=…) accepts `order` and never passes it on: np.copy's default 'K' is used
-  -- whatever the caller asks for (ndarray.copy defaults to 'C'); an invalid order is not rejected
-  ("ndarray.copy", "dropped:order")
-]
+-- ("ndarray.copy", "dropped:order") was listed here until the fix: commit "unyt_array.copy ignored order=":
+-- copy now calls ndarray.copy(order) on the bare view, so the row is defect-free and the list is empty.
+def exclC06Methods : List (String × String) := []
 
 end Unyt.Ref
